@@ -1,0 +1,134 @@
+//go:build verif
+
+package mp4
+
+// Property C04 (decoders never panic, terminate, allocate O(input)): loop invariants and helper contracts for the decoders
+// that were excluded from the first round of the check.
+
+// Termination of child-decoding loops over a SliceReader: every successful DecodeBoxSR consumes at least the 8 header
+// bytes of a finite reader (contract of DecodeBoxSR), so len-pos of the reader is the measure, whatever Size() of the
+// decoded child says.
+//@ func DecodeAudioSampleEntrySR
+//@   loop 1 invariant srOKi(sr) && sr.(*bits.FixedSliceReader).len == old(sr.(*bits.FixedSliceReader).len) && sr.(*bits.FixedSliceReader).pos >= old(sr.(*bits.FixedSliceReader).pos)
+//@   loop 1 decreases sr.(*bits.FixedSliceReader).len - sr.(*bits.FixedSliceReader).pos
+
+// io.Reader variants: a successful DecodeBox consumes at least the 8 header bytes of the reader (DecodeHeader below proves
+// its part), but the body is read through io.LimitReader/io.ReadAll (readBoxBody), which the verifier's model of abstract
+// readers does not connect back to the underlying reader, so "every registered decoder only moves the reader forwards"
+// cannot be derived and the termination of loops around DecodeBox is not claimed (same as DecodeContainerChildren).
+//@ func DecodeHeader
+//@   ensures result1 == nil ==> ghost(r).rpos >= old(ghost(r).rpos) + 8 && ghost(r).rlen == old(ghost(r).rlen)
+//@ func DecodeAudioSampleEntry
+//@   loop 1 noterm
+
+// ---------------------------------------------------------------- esds descriptors
+// pred srFwd: the reader is the same finite slice as at entry and has not moved backwards.
+//@ pred srFwd(sr bits.SliceReader) = sr.(*bits.FixedSliceReader).len == old(sr.(*bits.FixedSliceReader).len) && sr.(*bits.FixedSliceReader).pos >= old(sr.(*bits.FixedSliceReader).pos)
+
+// A successfully decoded descriptor has consumed at least its tag byte: the measure of the descriptor loops.
+//@ func DecodeDescriptor
+//@   ensures srFwd(sr)
+//@   ensures result1 == nil ==> result0 != nil && sr.(*bits.FixedSliceReader).pos >= old(sr.(*bits.FixedSliceReader).pos) + 1
+//@ func DecodeDecSpecificInfoDescriptor
+//@   ensures srFwd(sr)
+//@   ensures result1 == nil ==> result0 != nil
+//@ func DecodeSLConfigDescriptor
+//@   ensures srFwd(sr)
+//@   ensures result1 == nil ==> result0 != nil
+//@ func DecodeRawDescriptor
+//@   ensures srFwd(sr)
+//@   ensures result1 == nil ==> result0 != nil
+// readSizeSize: a failed read returns 0, which ends the loop; the last iteration does not move the reader, hence the extra
+// unit in the measure while the continuation bit is set.
+//@ func readSizeSize
+//@   ensures srFwd(sr)
+//@   loop 1 invariant srOKi(sr) && srFwd(sr) && (tmp&0x80 != 0 ==> sr.(*bits.FixedSliceReader).err == nil)
+//@   loop 1 decreases sr.(*bits.FixedSliceReader).len - sr.(*bits.FixedSliceReader).pos + ite(tmp&0x80 != 0, 1, 0)
+//@ func DecodeDecoderConfigDescriptor
+//@   ensures srFwd(sr)
+//@   ensures result1 == nil ==> result0 != nil
+//@   loop 1 invariant srOKi(sr) && srFwd(sr) && dataStart >= 0
+//@   loop 1 decreases sr.(*bits.FixedSliceReader).len - sr.(*bits.FixedSliceReader).pos
+//@ func DecodeESDescriptor
+//@   ensures srFwd(sr)
+//@   loop 1 invariant srOKi(sr) && srFwd(sr) && dataStart >= 0
+//@   loop 1 decreases sr.(*bits.FixedSliceReader).len - sr.(*bits.FixedSliceReader).pos
+
+// ---------------------------------------------------------------- stpp
+// The closure remainingBytes of DecodeStppSR.
+//@ func DecodeStppSR$DecodeStppSR$1
+//@   inline
+//@ func DecodeStppSR
+//@   loop 1 invariant srOKi(sr) && srFwd(sr)
+//@   loop 1 decreases sr.(*bits.FixedSliceReader).len - sr.(*bits.FixedSliceReader).pos
+
+// ---------------------------------------------------------------- evte, visual sample entries, wvtt: child loops
+// The closure remainingBytes of DecodeEvteSR.
+//@ func DecodeEvteSR$DecodeEvteSR$1
+//@   inline
+//@ func DecodeEvteSR
+//@   loop 1 invariant srOKi(sr) && srFwd(sr)
+//@   loop 1 decreases sr.(*bits.FixedSliceReader).len - sr.(*bits.FixedSliceReader).pos
+//@ func DecodeVisualSampleEntrySR
+//@   loop 1 invariant srOKi(sr) && srFwd(sr)
+//@   loop 1 decreases sr.(*bits.FixedSliceReader).len - sr.(*bits.FixedSliceReader).pos
+//@ func DecodeWvttSR
+//@   loop 1 invariant srOKi(sr) && srFwd(sr)
+//@   loop 1 decreases sr.(*bits.FixedSliceReader).len - sr.(*bits.FixedSliceReader).pos
+
+// ---------------------------------------------------------------- sgpd and its sample group entry decoders
+// Every sample group entry decoder (reached through the map sgeDecoders) only moves the reader forwards.
+//@ schema sgeDecoder func ^Decode\w+SampleGroupEntry$ type SampleGroupEntryDecoder
+//@   requires srOKi(p2)
+//@   ensures srOKi(p2) && srFwd(p2)
+//@   ensures result1 == nil ==> result0 != nil
+//@ func decodeSampleGroupEntry
+//@   ensures srFwd(sr)
+//@   ensures result1 == nil ==> result0 != nil
+//@ func DecodeSgpdSR
+//@   loop 1 invariant srOKi(sr) && srFwd(sr)
+
+// ---------------------------------------------------------------- ssix
+// sizeLeft loses 4 bytes per subsegment (never the range bytes), so it stays at most hdr.Size-16: each single allocation of
+// ranges is bounded by the box size. (The sum over all subsegments is bounded by the bytes actually read, because after the
+// first failed read every count is read as 0.)
+//@ func DecodeSsixSR
+//@   loop 1 invariant 0 <= i && i <= int(subSegmentCount) && hdr.Size >= 16 && uint64(subSegmentCount) <= (hdr.Size-16)/8 && sizeLeft == hdr.Size - 16 - 4*uint64(i) && len(b.SubSegments) == int(subSegmentCount)
+//@   loop 2 invariant 0 <= i && i < int(subSegmentCount) && hdr.Size >= 16 && uint64(subSegmentCount) <= (hdr.Size-16)/8 && sizeLeft == hdr.Size - 16 - 4*uint64(i) - 4 && len(b.SubSegments) == int(subSegmentCount) && 0 <= j && len(subSeg.Ranges) == int(rangeCount)
+
+// ---------------------------------------------------------------- tfra
+// hdr.Size == expectedSize(nrEntries) (at least 11 bytes per entry) bounds the entry count by the box size; the size
+// arithmetic is taken from the code itself (as for trun).
+//@ func (*TfraBox).expectedSize
+//@   inline
+// The loop body has 128 paths (version x three 4-way switches); the preservation of the invariant below needs about 45-80 s of
+// cvc5, i.e. run this function with -timeout 30000.
+//@ func DecodeTfraSR
+//@   loop 1 invariant sr.(*bits.FixedSliceReader).pos >= old(sr.(*bits.FixedSliceReader).pos)
+
+// ---------------------------------------------------------------- uuid
+//@ func decodeTfxd
+//@   ensures srFwd(s)
+//@   ensures result1 == nil ==> result0 != nil
+//@ func decodeTfrf
+//@   ensures srFwd(s)
+//@   ensures result1 == nil ==> result0 != nil
+//@   loop 1 invariant srOKi(s) && srFwd(s) && t != nil
+//@   loop 2 invariant srOKi(s) && srFwd(s) && t != nil
+//@ func DecodeSencSR
+//@   ensures result1 == nil ==> typeis(result0, "*SencBox")
+
+// ---------------------------------------------------------------- edts
+// b.Type() on the elements of the children list: the list holds only results of successful DecodeBox[SR] calls, which are
+// non-nil (contract of DecodeBoxSR). Carrying "all elements non-nil" as a quantified invariant through the loop of
+// DecodeContainerChildren[SR] fails at the call of DecodeBoxSR: without a frame condition for the registered decoders (reached
+// through the registry map) the call is taken to possibly overwrite any []Box memory, including the caller's local list.
+// The non-nil dereference is therefore assumed here, exactly as for c.Type() in DecodeContainerChildren[SR].
+//@ func DecodeEdtsSR
+//@   trustkind nil@b.Type()
+//@ func DecodeEdts
+//@   trustkind nil@b.Type()
+
+// ---------------------------------------------------------------- DecodeBoxLazyMdat
+//@ func DecodeMdatLazily
+//@   ensures result1 == nil && result0 != nil
